@@ -47,6 +47,7 @@ TInit == Step(/\ Ev.op = "init"
               /\ head' = 0
               /\ pool' = [InitPool(StateOf(BlockOf(Ev.genesis))) EXCEPT !.tip = Ev.tip]
               /\ cycled' = TRUE
+              /\ gapped' = {}
               /\ last' = [op |-> "init", tx |-> 0, err |-> "ok"]
               /\ Logged)
 TAdd   == Step(Ev.op = "add" /\ Add(Ev.tx) /\ last'.err = Ev.err /\ Logged)
@@ -62,6 +63,7 @@ TraceInit == /\ l = 1
              /\ head = 0
              /\ pool = InitPool(StateOf(blocks[0]))
              /\ cycled = TRUE
+             /\ gapped = {}
              /\ last = [op |-> "init", tx |-> 0, err |-> "ok"]
 TraceNext == TInit \/ TAdd \/ TReset \/ TTip
 TraceSpec == TraceInit /\ [][TraceNext]_<<vars, l>>
